@@ -3,6 +3,7 @@ audit, known findings, replays, evidence.  See DESIGN.md sections 2-5."""
 from __future__ import annotations
 
 import fcntl
+import shutil
 import hashlib
 import json
 import math
@@ -179,7 +180,7 @@ def property_theorems(pid: str):
     return [prefix + m.group(1) for m in re.finditer(r"^\s*(?:protected\s+)?theorem\s+(\S+)", body, re.M)]
 
 
-def lean_check(pid: str, thorough: bool = False):
+def lean_check(pid: str, thorough: bool = False, own_tables: bool = False):
     """build Skc.Props.<pid> (+ driver), audit the axioms of every property theorem.
     returns dict(ok, obligations, discharged, failed, log, checker_cmd)"""
     res = {"ok": False, "obligations": 0, "discharged": 0, "failed": [], "log": "", "axioms": {}}
@@ -197,12 +198,32 @@ def lean_check(pid: str, thorough: bool = False):
     res["obligations"] = len(names)
     with LeanLock():
         t0 = time.time()
-        rc, out = _run(["lake", "build", target, "skcdriver"])
+        rc, out = _run(["lake", "build", target])
         res["build_s"] = round(time.time() - t0, 1)
         if rc != 0:
             res["log"] = out[-6000:]
             bad = re.findall(r"error: (\S+\.lean):(\d+):\d+", out)
             res["failed"] = [f"{target} (build failed" + (f" at {bad[0][0]}:{bad[0][1]}" if bad else "") + ")"]
+        # the model driver links every property's model; a breakage there that is not this property's
+        # own (its Props target built) must not be blamed on it: fall back to the last driver that linked
+        rcd, outd = _run(["lake", "build", "skcdriver"])
+        aud = LEAN / ".audit"
+        aud.mkdir(exist_ok=True)
+        good = aud / "skcdriver.good"
+        if rcd == 0 and DRIVER.exists():
+            tmp = aud / f"skcdriver.tmp{os.getpid()}"
+            shutil.copy2(DRIVER, tmp)
+            os.replace(tmp, good)
+        else:
+            res["driver_build_failed"] = outd[-3000:]
+            if own_tables or not good.exists():
+                res["failed"].append("skcdriver (model driver does not build: " + (re.findall(r"error: (\S+\.lean:\d+)", outd) or ["?"])[0] + ")")
+        # private copy for this run: another check may relink the shared binary meanwhile
+        if good.exists():
+            mine = aud / f"skcdriver.run{os.getpid()}"
+            shutil.copy2(good, mine)
+            res["driver_path"] = str(mine)
+        if rc != 0:
             return res
         hits = forbidden_tokens()
         if hits:
@@ -241,16 +262,17 @@ def lean_check(pid: str, thorough: bool = False):
 class Driver:
     """batch interface to the compiled Lean model"""
 
-    def __init__(self):
+    def __init__(self, path=None):
         self.calls = 0
         self.wall = 0.0
+        self.path = path or str(DRIVER)
 
     def batch(self, reqs, timeout=1800):
         if not reqs:
             return []
         t0 = time.time()
         data = "\n".join(json.dumps(r, separators=(",", ":")) for r in reqs) + "\n"
-        p = subprocess.run([str(DRIVER)], input=data, stdout=subprocess.PIPE, stderr=subprocess.PIPE, text=True, timeout=timeout)
+        p = subprocess.run([self.path], input=data, stdout=subprocess.PIPE, stderr=subprocess.PIPE, text=True, timeout=timeout)
         if p.returncode != 0:
             raise RuntimeError(f"skcdriver exited {p.returncode}: {p.stderr[-2000:]}")
         lines = p.stdout.splitlines()
